@@ -675,3 +675,26 @@ def w10(ctx):
 
 
 RULES.append(w10)
+
+
+@rule("W11", doc="the built-in cost function cannot overflow: AstSize::cost contains no checked arithmetic (an addition that panics on overflow, Iterator::sum / product) — sizes accumulate with saturating_add, so a class whose smallest term has 2^64 nodes (a sharing chain 64 deep) costs u64::MAX instead of aborting extraction")
+def w11(ctx):
+    crate = ctx.lib()
+    az = [x for x in crate.by_name.get("cost", []) if x.kind != "Closure" and "AstSize" in (x.impl_self or "")]
+    ctx.floor("AstSize::cost", len(az), 1)
+    for a_ in az:
+        bad = []
+        for sub in a_.all_bodies():
+            for bi, blk in enumerate(sub.blocks):
+                t = blk["term"]
+                if not blk["cleanup"] and t["k"] == "assert" and "overflow" in str(t.get("akind", "")).lower():
+                    bad.append(("checked arithmetic (%s)" % t.get("akind"), sub, bi))
+            for c in sub.calls:
+                if c.callee and c.callee.name in ("sum", "product") and not sub.blocks[c.bb]["cleanup"]:
+                    bad.append(("Iterator::%s" % c.callee.name, sub, c.bb))
+        ctx.check(not bad, "ast-size-saturates", "AstSize::cost has no arithmetic that can overflow",
+                  "AstSize::cost uses %s: the size of a term grows exponentially with sharing, so a small e-graph can hold a class whose smallest term exceeds u64 — Extractor::new costs every class and panics with 'attempt to add with overflow' (in release builds the sum wraps and a huge term looks cheap)" % ", ".join(sorted({x[0] for x in bad})),
+                  where_of(bad[0][1], bad[0][2]) if bad else where_of(a_))
+
+
+RULES.append(w11)
